@@ -147,6 +147,7 @@ class FuncTranslator:
         self.env = {}
         self.fresh = 0
         self.raises = self._has_raise(fdef)
+        self.uses_rnd = False
 
     @staticmethod
     def _has_raise(fdef):
@@ -293,7 +294,7 @@ class FuncTranslator:
                 if isinstance(e.slice, ast.Name) and e.slice.id in self.m.consts:
                     return t[1][self.m.consts[e.slice.id][2]]
             raise Untranslatable(f"{self.name}: subscript of {t!r}")
-        if isinstance(e, ast.ListComp):
+        if isinstance(e, (ast.ListComp, ast.GeneratorExp)):
             saved = dict(self.env)
             for g in e.generators:
                 self._bind_target(g.target, self._elem_type(g.iter))
@@ -303,6 +304,11 @@ class FuncTranslator:
         if isinstance(e, ast.Call):
             fn = e.func
             if isinstance(fn, ast.Name):
+                if fn.id == "round" and len(e.args) == 2:
+                    return FLOAT
+                if fn.id == "sum":
+                    t = self.etype(e.args[0])
+                    return None if t is None else join(INT, t[1])
                 if fn.id in ("len", "int", "round"):
                     return INT
                 if fn.id == "str":
@@ -450,7 +456,7 @@ class FuncTranslator:
                 n = len(vt[1])
                 proj = ".2" * k + (".1" if k < n - 1 else "")
                 return self.coerce(f"{self.expr(e.value)}{proj}", t, expected)
-        if isinstance(e, ast.ListComp):
+        if isinstance(e, (ast.ListComp, ast.GeneratorExp)):
             return self.listcomp(e, expected)
         if isinstance(e, ast.Call):
             return self.call(e, expected)
@@ -460,16 +466,28 @@ class FuncTranslator:
         saved = dict(self.env)
         for g in e.generators:
             self._bind_target(g.target, self._elem_type(g.iter))
-        et = expected[1] if expected is not None and expected[0] == "List" else None
+        et = expected[1] if isinstance(expected, tuple) and expected[0] == "List" else None
         body = self.expr(e.elt, et)
         for k, g in enumerate(reversed(e.generators)):
-            if not isinstance(g.target, ast.Name):
-                raise Untranslatable("comprehension with tuple target")
-            for c in g.ifs:
-                raise Untranslatable("comprehension with a filter")
-            v = ident(g.target.id) if g.target.id != "_" else "_"
             it = self.iterable(g.iter)
-            body = f"(List.map (fun {v} => {body}) {it})" if k == 0 else f"(List.flatMap (fun {v} => {body}) {it})"
+            if isinstance(g.target, ast.Name):
+                v = ident(g.target.id) if g.target.id != "_" else "_"
+                binder, lets = v, ""
+            elif isinstance(g.target, ast.Tuple) and all(isinstance(x, ast.Name) for x in g.target.elts):
+                binder = self.new("c")
+                n = len(g.target.elts)
+                lets = ""
+                for i, x in enumerate(g.target.elts):
+                    if x.id == "_":
+                        continue
+                    proj = ".2" * i + (".1" if i < n - 1 else "")
+                    lets += f"let {ident(x.id)} := {binder}{proj}; "
+            else:
+                raise Untranslatable("comprehension target")
+            for c in g.ifs:
+                it = f"(List.filter (fun {binder} => {lets}decide {self.cond(c)}) {it})"
+            body = (f"(List.map (fun {binder} => {lets}{body}) {it})" if k == 0
+                    else f"(List.flatMap (fun {binder} => {lets}{body}) {it})")
         self.env = saved
         return body
 
@@ -498,6 +516,15 @@ class FuncTranslator:
                 if at != INT:
                     raise Untranslatable(f"int() of {at!r}")
                 return self.coerce(self.expr(e.args[0]), INT, expected)
+            if fn.id == "round" and len(e.args) == 2:
+                # Python's two-argument round returns a float; it is a PARAMETER of the translated unit
+                # (`rnd : Float → Int → Float`): nothing about decimal rounding is assumed here
+                self.uses_rnd = True
+                return self.coerce(f"(rnd {self.expr(e.args[0], FLOAT)} {self.expr(e.args[1], INT)})", FLOAT, expected)
+            if fn.id == "sum" and len(e.args) == 1:
+                # sum(xs): starts from the int 0 and adds left to right
+                return self.coerce(f"(List.foldl (fun acc x => acc + x) ({'0 : Float' if t == FLOAT else '0 : Int'}) "
+                                   f"{self.expr(e.args[0], TList(t))})", t, expected)
             if fn.id == "round" and len(e.args) == 1:
                 return self.coerce(f"(Py.round {self.expr(e.args[0], FLOAT)})", INT, expected)
             if fn.id in ("max", "min") and len(e.args) == 1:
@@ -513,6 +540,11 @@ class FuncTranslator:
                     dmap[a] = d
                 given = {}
                 pos = [a for a in allnames]
+                if "cls" in callee.cfg:
+                    pseudo = self.m.pseudo_of.get(fn.id, [])
+                    for a in pseudo:
+                        given[a] = ast.Name(id=a, ctx=ast.Load())
+                    pos = [a for a in allnames if a not in pseudo]
                 for a, v in zip(pos, e.args):
                     given[a] = v
                 for kw in e.keywords:
@@ -526,6 +558,9 @@ class FuncTranslator:
                         args.append(callee_default(dmap[a], pt))
                     else:
                         raise Untranslatable(f"{self.name}: call of {fn.id} without argument {a}")
+                if callee.uses_rnd:
+                    self.uses_rnd = True
+                    args = ["rnd"] + args
                 return self.coerce(f"({fn.id} " + " ".join(args) + ")", t, expected)
         raise Untranslatable(f"{self.name}: call {ast.dump(fn)[:80]}")
 
@@ -553,6 +588,9 @@ class FuncTranslator:
                 return s if isinstance(op, ast.In) else f"(¬ {s})"
             want = join(lt, rt) if lt is not None and rt is not None else (lt or rt)
             a, b = self.expr(l, want), self.expr(r, want)
+            if want == FLOAT and isinstance(op, (ast.Eq, ast.NotEq)):
+                # IEEE comparison (NaN != NaN, -0.0 == 0.0), not structural equality
+                return f"(({a} == {b}) = {'true' if isinstance(op, ast.Eq) else 'false'})"
             sym = {ast.Eq: "=", ast.NotEq: "≠", ast.Lt: "<", ast.LtE: "≤", ast.Gt: ">", ast.GtE: "≥"}.get(type(op))
             if sym is None:
                 raise Untranslatable(f"comparison {type(op).__name__}")
@@ -893,6 +931,8 @@ class FuncTranslator:
         lines = self.block(body, k, set(p for p in self.params if p not in self.drop), "  ",
                            lambda n: n == self.result_var)
         params = " ".join(f"({ident(p)} : {lean_type(self.ptypes[p])})" for p in self.params if p not in self.drop)
+        if self.uses_rnd:
+            params = "(rnd : Float → Int → Float) " + params
         tvars = sorted({x[1] for x in _walk_types(list(self.ptypes.values()) + [rt]) if x[0] == "Var"})
         tv = "".join(f" {{{v} : Type}} [Inhabited {v}]" for v in tvars)
         rts = lean_type(rt)
@@ -923,6 +963,91 @@ def callee_default(d, pt):
     raise Untranslatable("default value")
 
 
+FIELDS = {"reach_probability": "reach", "expected_rewards": "er", "expected_rewards_min_reach": "ermr",
+          "expected_reach_min_rewards": "pmr"}
+PSEUDO = ["next_states", "reward", "reach", "er", "ermr", "pmr"]
+
+
+class SelfRewriter(ast.NodeTransformer):
+    """methods of the node classes as functions of the data they read: `self.next_states` / `self.reward` become
+    the parameters `next_states` / `reward`; `state_list[k].<field>` becomes `<vector>[k]` with one vector per
+    field (reach, er, ermr, pmr): the struct-of-arrays view the hand model uses; `self.m(state_list, a…)`
+    becomes a call of the unit `<Class>_m`"""
+
+    def __init__(self, cls, fdef=None):
+        self.cls = cls
+        self.alias = {}
+        if fdef is not None:
+            # `x = state_list[k]` ... `x.<field>`: x is an alias of the k-th state object, provided nothing k is
+            # made of is re-assigned by an assignment statement of the function (loop variables are fine)
+            assigned = set()
+            for n in ast.walk(fdef):
+                if isinstance(n, (ast.Assign, ast.AugAssign)):
+                    for t in (n.targets if isinstance(n, ast.Assign) else [n.target]):
+                        for x in ast.walk(t):
+                            if isinstance(x, ast.Name):
+                                assigned.add(x.id)
+            for n in ast.walk(fdef):
+                if isinstance(n, ast.Assign) and len(n.targets) == 1 and isinstance(n.targets[0], ast.Name) \
+                        and isinstance(n.value, ast.Subscript) and isinstance(n.value.value, ast.Name) \
+                        and n.value.value.id == "state_list":
+                    free = {x.id for x in ast.walk(n.value.slice) if isinstance(x, ast.Name)}
+                    if not (free & assigned) and n.targets[0].id not in self.alias:
+                        self.alias[n.targets[0].id] = n.value.slice
+                    else:
+                        self.alias[n.targets[0].id] = None
+
+    def visit_Assign(self, node):
+        if len(node.targets) == 1 and isinstance(node.targets[0], ast.Name) and self.alias.get(node.targets[0].id) is not None:
+            return ast.copy_location(ast.Pass(), node)
+        self.generic_visit(node)
+        return node
+
+    def visit_Attribute(self, node):
+        self.generic_visit(node)
+        if isinstance(node.value, ast.Name) and self.alias.get(node.value.id) is not None and node.attr in FIELDS:
+            import copy as _copy
+            return ast.copy_location(ast.Subscript(value=ast.Name(id=FIELDS[node.attr], ctx=ast.Load()),
+                                                   slice=_copy.deepcopy(self.alias[node.value.id]), ctx=node.ctx), node)
+        if isinstance(node.value, ast.Name) and node.value.id == "self":
+            return ast.copy_location(ast.Name(id=node.attr, ctx=node.ctx), node)
+        if isinstance(node.value, ast.Subscript) and isinstance(node.value.value, ast.Name) \
+                and node.value.value.id == "state_list" and node.attr in FIELDS:
+            return ast.copy_location(ast.Subscript(value=ast.Name(id=FIELDS[node.attr], ctx=ast.Load()),
+                                                   slice=node.value.slice, ctx=node.ctx), node)
+        return node
+
+    def visit_Call(self, node):
+        if isinstance(node.func, ast.Attribute) and isinstance(node.func.value, ast.Name) and node.func.value.id == "self":
+            args = [self.visit(a) for a in node.args if not (isinstance(a, ast.Name) and a.id == "state_list")]
+            return ast.copy_location(ast.Call(func=ast.Name(id=f"{self.cls}_{node.func.attr}", ctx=ast.Load()),
+                                              args=args, keywords=[]), node)
+        self.generic_visit(node)
+        return node
+
+
+def method_as_function(tree, cls, meth, lean_name, pseudo_of):
+    import copy
+    for node in tree.body:
+        if isinstance(node, ast.ClassDef) and node.name == cls:
+            for sub in node.body:
+                if isinstance(sub, ast.FunctionDef) and sub.name == meth:
+                    f = SelfRewriter(cls, sub).visit(copy.deepcopy(sub))
+                    ast.fix_missing_locations(f)
+                    used = {n.id for n in ast.walk(f) if isinstance(n, ast.Name)}
+                    for n in ast.walk(f):
+                        if isinstance(n, ast.Call) and isinstance(n.func, ast.Name) and n.func.id in pseudo_of:
+                            used |= set(pseudo_of[n.func.id])
+                    pseudo = [p for p in PSEUDO if p in used]
+                    explicit = [a.arg for a in f.args.args if a.arg not in ("self", "state_list")]
+                    f.args.args = [ast.arg(arg=a) for a in pseudo + explicit]
+                    f.args.defaults = []
+                    f.name = lean_name
+                    pseudo_of[lean_name] = pseudo
+                    return f
+    return None
+
+
 class ModuleTranslator:
     def __init__(self, path, units, namespace, imports_from=None):
         self.path = path
@@ -949,15 +1074,21 @@ class ModuleTranslator:
             for n, u in imports_from.units.items():
                 self.units[n] = u
                 self.rtypes[n] = imports_from.rtypes[n]
+        self.pseudo_of = {}
         for name, cfg in units.items():
-            src_name = cfg.get("of", name)
+            if "cls" in cfg:
+                f = method_as_function(self.tree, cfg["cls"], cfg["of"], name, self.pseudo_of)
+                if f is not None:
+                    fdefs[name] = f
+        for name, cfg in units.items():
+            src_name = cfg.get("of", name) if "cls" not in cfg else name
             if src_name not in fdefs:
                 continue
             self.units[name] = FuncTranslator(self, fdefs[src_name], cfg)
             self.units[name].name = name if cfg.get("mode") != "assign_expr" else src_name
             self.rtypes[name] = cfg["returns"]
-        self.own = [n for n in units if units[n].get("of", n) in fdefs]
-        self.missing = [n for n in units if units[n].get("of", n) not in fdefs]
+        self.own = [n for n in units if n in self.units and (imports_from is None or n not in imports_from.units)]
+        self.missing = [n for n in units if n not in self.units]
 
     def return_type(self, name):
         return self.rtypes[name]
@@ -1030,6 +1161,35 @@ RDFS_UNITS = {
 }
 
 
+ACT_ROW, PROB_ROW, VEC = TList(TTup(STR, INT)), TList(TTup(FLOAT, INT)), TList(FLOAT)
+NODE = {"reward": FLOAT, "reach": VEC, "er": VEC, "ermr": VEC, "pmr": VEC, "floor": INT}
+TRIPLE = TTup(FLOAT, FLOAT, FLOAT)
+
+
+def _m(cls, meth, row, returns, **kw):
+    return {"cls": cls, "of": meth, "params": {**NODE, "next_states": row, **kw.pop("params", {})}, "returns": returns, **kw}
+
+
+TAD_UNITS = {
+    "ProbabilisticNode_value_iteration_reach": _m("ProbabilisticNode", "value_iteration_reach", PROB_ROW, FLOAT),
+    "ProbabilisticNode_value_iteration_rewards": _m("ProbabilisticNode", "value_iteration_rewards", PROB_ROW, TRIPLE),
+    "ProbabilisticNode_prune_paths": _m("ProbabilisticNode", "prune_paths", PROB_ROW, PROB_ROW, result_var="next_states"),
+    "PlayerOne_value_iteration_reach": _m("PlayerOne", "value_iteration_reach", ACT_ROW, FLOAT),
+    "PlayerOne_value_iteration_rewards": _m("PlayerOne", "value_iteration_rewards", ACT_ROW, TRIPLE),
+    "PlayerOne_get_best_strategies_reachability": _m("PlayerOne", "get_best_strategies_reachability", ACT_ROW, TList(STR)),
+    "PlayerOne_prune_paths_reachability": _m("PlayerOne", "prune_paths_reachability", ACT_ROW, ACT_ROW, result_var="next_states",
+                                             params={"best_strategies": TList(STR)}),
+    "PlayerOne_prune_paths": _m("PlayerOne", "prune_paths", ACT_ROW, ACT_ROW, result_var="next_states"),
+    "PlayerOne_get_best_strategies_total_rewards": _m("PlayerOne", "get_best_strategies_total_rewards", ACT_ROW, TList(STR)),
+    "PlayerTwo_value_iteration_reach": _m("PlayerTwo", "value_iteration_reach", ACT_ROW, FLOAT),
+    "PlayerTwo_get_worst_strategies_reachability": _m("PlayerTwo", "get_worst_strategies_reachability", ACT_ROW, TList(STR)),
+    "PlayerTwo__expected_rewards_min_reach": _m("PlayerTwo", "_expected_rewards_min_reach", ACT_ROW, FLOAT,
+                                                params={"strategies": TList(STR)}),
+    "PlayerTwo_value_iteration_rewards": _m("PlayerTwo", "value_iteration_rewards", ACT_ROW, TRIPLE),
+    "PlayerTwo_get_worst_strategies_total_rewards": _m("PlayerTwo", "get_worst_strategies_total_rewards", ACT_ROW, TList(STR)),
+}
+
+
 def write_if_changed(path, text):
     old = None
     if os.path.exists(path):
@@ -1080,7 +1240,8 @@ def run(repo=None, out_dir=None):
     gen = None
     for fn, units, ns, out, imp in (("roberta_generator.py", GEN_UNITS, "CR.Ex.Gen", "Gen.lean", None),
                                     ("stochastic_game_from_roborta_board.py", SG_UNITS, "CR.Ex.Gen", "Manual.lean", "gen"),
-                                    ("reverse_dfs.py", RDFS_UNITS, "CR.Ex.Rdfs", "Rdfs.lean", None)):
+                                    ("reverse_dfs.py", RDFS_UNITS, "CR.Ex.Rdfs", "Rdfs.lean", None),
+                                    ("tad.py", TAD_UNITS, "CR.Ex.Tad", "Tad.lean", None)):
         try:
             mt = ModuleTranslator(os.path.join(repo, fn), units, ns, imports_from=gen if imp else None)
         except (OSError, SyntaxError) as e:
